@@ -125,3 +125,25 @@ chk("C19", "schedx",
     "Each thread has its own connection, session, reference BMC and random stream and runs one of 6 workloads chosen to touch the same package-level state (default-suite discovery handshake, commands, DCMI group-extension path, SDR walk, close, session-less commands). The current /repo sources are instrumented at check time (overlay, /repo untouched) so that the library yields before every statement mentioning any package-level variable; the transport yields at Send entry/exit. All 21 unordered workload pairs are explored with k=1 (quick) / k=2 (thorough), three pairs with k+1, and 3-thread sets; oracle: each thread's results and the raw datagrams its BMC received equal the solo run, and a %#v dump of every package-level variable (Prometheus collectors aside) equals its post-init value. Companion: the same kind of bodies free-running over UDP loopback under the race detector (N=2..16), whose reports are turned into violations.",
     "Sequentially consistent interleavings at the instrumented points only; state inside dependencies and weak-memory effects are left to the race-detector companion (sampled schedules, not the deciding step). A 40-transmission horizon per thread ends disturbed retry loops.",
     "DESIGN.md section 3.4, section 4 C19")
+
+# ---- refinements after the seeded-change rounds (texts only) -----------------
+CHECKS["C01"]["text"] += " The options value is also used first for a session to another BMC with another password (the library documents that it does not modify it)."
+CHECKS["C02"]["text"] += " Scenarios with 24-byte secrets (BMC holding only the 20-byte prefix) are included."
+CHECKS["C03"]["text"] += " Sessions of 150 commands (IV reuse, counters, buffer growth) and caller-defined commands with bodies up to 200 bytes are included; the busy reply of retry alphabets carries a foreign RMCP sequence number."
+CHECKS["C04"]["text"] += " Sixteen pad-length-16 forgeries with one wrong byte each; a successful call ending on any truncated reply is a violation."
+CHECKS["C05"]["text"] += " Get SDR replies shaped like record headers (every type/length the walk branches on) and record bodies of every length with every ID-string type are part of the protocol-level catalogue."
+CHECKS["C06"]["text"] += " Serialise buffers are dirty (stale bytes, as on a used connection); every command is also sent again after a node-busy reply with a foreign RMCP sequence; handshakes are run after four kinds of connection history; caller-defined group-extension / OEM / arbitrary-NetFn commands and multi-byte user names are included."
+CHECKS["C07"]["text"] += " Per-layer judged/not-judged counts are reported in the evidence."
+CHECKS["C08"]["text"] += " Serialise buffers are dirty, and another wrapper is serialised between a wrapper's serialisation and its comparison."
+CHECKS["C09"]["text"] += " The handshake alphabet includes honest replies whose unused wrapper fields are non-zero."
+CHECKS["C10"]["text"] += " All 255 completion codes are tried as final answers; the handshake alphabet includes a stale command reply; per-attempt contexts that an earlier timed-out attempt used up are refused by the transport model as by a real socket."
+CHECKS["C11"]["text"] += " The event alphabet also has refused (0xD4) replies duplicated or late, node-busy and context expiry; pairs of different DCMI commands are included; k=3 on two-command histories."
+CHECKS["C12"]["text"] += " Zero-length (wildcard) algorithm payloads, and establishments preceded by another establishment on the same connection, are included."
+CHECKS["C13"]["text"] += " Calls at a later point of an object's life (Close after a failed Close, NewV2Session with 3/4/6 sessions open), a repository that keeps changing, deadline << per-attempt timeout over real sockets, and a real-time watchdog (a call blocked although all its waits are virtual waits on something its context does not bound)."
+CHECKS["C14"]["text"] += " Replies are windows of one reused buffer (as with the real transport) and each record's layer bytes are compared after the retrieval."
+CHECKS["C15"]["text"] += " One reader is also polled twice with all flag-class pairs."
+CHECKS["C16"]["text"] += " Errors after an entity that already yielded record IDs, on each entity and with several codes."
+CHECKS["C17"]["text"] += " Snapshots are reflection based (fmt %+v would call promoted String methods and hide fields); the second command may itself be retried transparently."
+CHECKS["C18"]["text"] += " 21 operation kinds incl. context ending during back-off, an open failing after the handshake, unsigned and foreign-session replies (a valid response is an authentic one for this session)."
+CHECKS["C19"]["text"] += " Ten workloads; odd slots are older BMCs (DCMI entity IDs only, suite 3 only) so process-wide memoisation shows; a workload refused with uncommon completion codes."
+CHECKS["C20"]["text"] += " 8-bit strings: all two-byte and the 3/4-byte sequences of high bytes (must not be read as UTF-8)."
